@@ -1312,9 +1312,12 @@ class Constructs(abstract.Container):
         """
         construct_type = self._check_construct_type(construct_type)
 
-        keys = self._constructs[construct_type]
+        # A new identifier must not be in use by a construct of any
+        # type (an identifier of this form may have been provided for
+        # a construct of another type)
+        keys = self._construct_type
 
-        n = len(keys)
+        n = len(self._constructs[construct_type])
         key_base = self._key_base[construct_type]
         key = f"{key_base}{n}"
         while key in keys:
